@@ -243,8 +243,8 @@ func RunReach(t *testing.T, rc *ReachCase) *ReachResult {
 			var rerr error
 			done = false
 			ncall := 1
-			if rc.Conc > 1 {
-				ncall = rc.Conc
+			if rc.Conc > 1 && k == 0 {
+				ncall = rc.Conc // the first phase is the concurrent one; later phases are single calls that see what it left behind
 			}
 			errs := make([]error, ncall)
 			var wg sync.WaitGroup
@@ -284,6 +284,8 @@ func RunReach(t *testing.T, rc *ReachCase) *ReachResult {
 				conc := ""
 				if ncall > 1 {
 					conc = fmt.Sprintf(" concurrent-calls=%d", ncall)
+				} else if rc.Conc > 1 {
+					conc = " after-concurrent-phase"
 				}
 				res.Viol = append(res.Viol, Violation{fmt.Sprintf("RefreshMetadata:fails-although-a-%s-answers rm=%d%s", who, rc.RM, conc),
 					fmt.Sprintf("RefreshMetadata #%d returned %q although a %s answers (behaviours %s over seeds 1..%d + brokers 1..%d; client knew brokers %v; client state before the call %s)", k+1, rerr, who, beh, len(rc.Seeds), rc.Known, known, dump)})
